@@ -8,6 +8,7 @@ Oracle : brute force over all n1*n2 pairs with long-double chord separations (vl
 import math
 import warnings
 import random
+import functools
 import numpy as np
 from vlib.harness import Check, np_rng
 from vlib.refs import sphere_match as R
@@ -59,6 +60,30 @@ def eff_cs(m, cs):
 def est_cells(ra1, dec1, cs):
     dr = max(dec1) - min(dec1)
     return (dr / cs + 3.0) * (360.0 / cs + 3.0)
+
+
+BRD_EVERY = 5
+PROTOCOL_MAX_CELLS = 5e4
+
+
+class OutsideWorkload(Exception):
+    """raised instead of a call that the buffer-reuse monitor composed from two calls and that no generator would make"""
+
+
+def grid_estimate(ra1, dec1, m, cs):
+    """upper estimate of the number of cells of the grid for list 1 and chunk size cs (own arithmetic: Dec extent, and the RA
+    arc outside the largest RA gap when that gap holds a multiple of 60 deg - the trial offsets - else all around)."""
+    try:
+        c = eff_cs(float(m), None if cs is None else float(cs))
+        ra = np.sort(np.mod(np.asarray(ra1, dtype='d').ravel(), 360.0))
+        dec = np.asarray(dec1, dtype='d').ravel()
+        if not (c > 0.0) or ra.size == 0 or not (np.all(np.isfinite(ra)) and np.all(np.isfinite(dec))):
+            return 0.0                       # not a grid question: the code under test answers (raises) by itself
+        gap = float(max(np.diff(ra).max(initial=0.0), ra[0] + 360.0 - ra[-1]))
+        arc = 360.0 - gap if gap >= 60.0 else 360.0
+        return (float(dec.max() - dec.min()) / c + 3.0) * (arc / c + 3.0)
+    except Exception:
+        return 0.0
 
 
 def perm_from_seed(seed, n):
@@ -123,7 +148,12 @@ class C04(Check):
                          'gridline_points_exactly_on_dec_bounds', 'gridline_points_on_outer_dec_bounds', 'gridline_points_on_ra_bounds',
                          'lattice_beyond_cases', 'wide_length_cases', 'wide_length_ge_180_cases', 'near_antipodal_pairs',
                          'seam_tight_cases', 'seam_tight_pairs',
-                         'boundary_ra_points', 'dense_cases', 'dense_cases_above_65536_in_one_chunk', 'dense_true_pairs', 'equal_ra_list1_cases', 'equal_dec_list1_cases')
+                         'boundary_ra_points', 'dense_cases', 'dense_cases_above_65536_in_one_chunk', 'dense_true_pairs', 'equal_ra_list1_cases', 'equal_dec_list1_cases',
+                         'same_lists_cases', 'same_lists_growing_calls', 'same_lists_growing_new_pairs_across_cells',
+                         'same_lists_growing_calls_default_chunksize', 'same_lists_growing_calls_after_spheregroup',
+                         'same_lists_shrinking_calls', 'same_lists_repeated_length_calls', 'same_lists_other_second_list_calls',
+                         'same_lists_calls_after_another_chunksize', 'same_lists_same_object_calls', 'same_lists_twin_calls',
+                         'same_lists_spheregroup_judged', 'brd_differentials', 'brd_differentials_partial_refill', 'brd_own_calls_made')
 
     # ------------------------------------------------------------------ wiring
     def setup(self):
@@ -140,7 +170,26 @@ class C04(Check):
                 chk._chunk = inst
             return orig(inst, ra, dec, marginSize)
         SG.chunks.assign = assign
-        self.brd.attach(self.rec, SG, 'spherematch', every=5)
+        # The buffer-reuse monitor repeats a call with the arguments of two observed calls MIXED ("same lists, another match
+        # length / chunk size").  A mixture can leave the workload's domain by orders of magnitude - a chunk size of arcseconds
+        # for a list that spans tens of degrees is 1e9 cells, and `chunks.__init__` then runs for minutes (seen as a `returns`
+        # alarm on the unchanged tree, quick tier seed 0, caused by the monitor alone).  Calls the monitor makes on its own are
+        # therefore refused - by an exception, which the monitor compares like any other answer - when the grid they ask for is
+        # larger than any grid the generators ask for.  Calls of the workload itself are never touched.
+        self._orig_spherematch = orig_sm = SG.spherematch
+        self.brd_calls = {'made': 0, 'refused': 0}
+
+        @functools.wraps(orig_sm)
+        def spherematch(*a, **k):
+            if chk.brd.in_protocol:
+                d = dict(zip(('ra1', 'dec1', 'ra2', 'dec2', 'matchlength', 'chunksize'), a), **k)
+                if grid_estimate(d.get('ra1'), d.get('dec1'), d.get('matchlength'), d.get('chunksize')) > PROTOCOL_MAX_CELLS:
+                    chk.brd_calls['refused'] += 1
+                    raise OutsideWorkload('mixture of two calls asks for a grid outside the workload')
+                chk.brd_calls['made'] += 1
+            return orig_sm(*a, **k)
+        SG.spherematch = spherematch
+        self.brd.attach(self.rec, SG, 'spherematch', every=BRD_EVERY)
         self.brd.per_case = 2
         self.rec.wrap(SG, 'spherematch')
         # known answers of the canaries, verified once against the independent reference (harness error if they disagree)
@@ -156,6 +205,7 @@ class C04(Check):
 
     def teardown(self):
         self.rec.unwrap_all()
+        self.SG.spherematch = self._orig_spherematch
         self.SG.chunks.assign = self._orig_assign
 
     def budget(self, tier):
@@ -180,6 +230,7 @@ class C04(Check):
             'seam_tight': 160 if q else 3000,
             'dense': len(DENSE_QUICK) if q else 4 * len(DENSE_SIZES),
             'degenerate': 300 if q else 6000,
+            'same_lists': 200 if q else 4000,
         }
 
     # ------------------------------------------------------------------ generator helpers
@@ -539,6 +590,127 @@ class C04(Check):
         cs = None if rng.random() < 0.5 else m * rng.choice(CS_FACT)
         return {'m': m, 'cs': cs, 'k': self._pick_k(rng, n1, len(ra2)), 'ra1': ra1, 'dec1': dec1, 'ra2': ra2, 'dec2': dec2,
                 'kind': kind}
+
+    def gen_same_lists(self, rng, nr, i):
+        """A SEQUENCE of calls in one process on equal content, every call judged by the brute-force oracle: the same first
+        list (byte-identical values; fresh copies or the very same array objects) matched again and again with several match
+        lengths - growing, shrinking, mixed order with repeats - at one explicit chunk size, at the default chunk size (lengths
+        <= 0.025 deg all get 0.1 deg), or alternating between two chunk sizes; against the same second list, another one, a
+        "twin" (same size and bounding box, other interior points), the first list itself; the first list permuted or replaced
+        by its twin in between; spheregroup on the first list interleaved (shorter and longer linking lengths).  List 1 spans
+        3-10 chunks each way and the second lists hold partners at 0-1.25 x the largest length, so that most true pairs of
+        the longer lengths straddle chunk edges.  What a call may leave behind for a later call on the same values - a
+        geometry or assignment remembered by content, size, extent, chunk size - is what this class looks at."""
+        kind = rng.choice(['growing', 'growing', 'growing', 'shrinking', 'mixed', 'mixed', 'default_small', 'default_small',
+                           'two_chunksizes', 'default_any'])
+        if kind == 'default_small':
+            m_max = rng.uniform(0.012, 0.025)
+        else:
+            m_max = log_uniform(rng, 0.02, 3.0)
+        nm = rng.randint(3, 5)
+        ms = [m_max]
+        for _ in range(nm - 1):
+            ms.append(ms[-1] * 10.0 ** -rng.uniform(0.15, 0.8))
+        ms = ms[::-1]                                                   # ascending
+        f1 = rng.choice([1.05, 1.3, 2.0, 2.0, 4.0, 4.0, 8.0])
+        if kind in ('default_small', 'default_any'):
+            cs_list = [None]
+            c = eff_cs(m_max, None)
+        else:
+            cs_list = [m_max * f1]
+            if kind == 'two_chunksizes':
+                cs_list.append(m_max * rng.choice([x for x in (1.05, 1.3, 2.0, 4.0, 8.0, 16.0) if x != f1]))
+            c = cs_list[0]
+        dec0 = rng.choice(DECS[:9]) + rng.uniform(-0.4, 0.4)
+        ra0 = rng.choice([rng.uniform(0, 360), rng.uniform(0, 360), 0.0])
+        c0 = max(math.cos(math.radians(dec0)), 0.05)
+        half = min(c * rng.uniform(1.5, 5.0), 12.0, 89.0 - abs(dec0))
+        n1 = rng.randint(20, 60)
+
+        def box(n):
+            return nr.uniform(-half, half, n), nr.uniform(-half, half, n)
+
+        def place(x, y):
+            ra = np.mod(ra0 + np.asarray(x) / c0, 360.0)
+            ra[ra >= 360.0] = 0.0
+            return ra.tolist(), np.clip(dec0 + np.asarray(y), -DECLIM, DECLIM).tolist()
+
+        def twin_xy(x, y):
+            """same size and the same extremes (hence the same bounding box), every other point drawn again"""
+            keep = {int(np.argmin(x)), int(np.argmax(x)), int(np.argmin(y)), int(np.argmax(y))}
+            x2, y2 = box(len(x))
+            for j in keep:
+                x2[j], y2[j] = x[j], y[j]
+            return x2, y2
+        x1, y1 = box(n1)
+        xt, yt = twin_xy(x1, y1)
+        l1 = [dict(zip(('ra', 'dec'), place(x1, y1))), dict(zip(('ra', 'dec'), place(xt, yt)))]
+
+        def partners(n, of):
+            ra, dec = [], []
+            for _ in range(n):
+                j = rng.randrange(n1)
+                a, d = R.destination(of['ra'][j], of['dec'][j], rng.uniform(0, 360), m_max * rng.uniform(0.0, 1.25))
+                if abs(d) < DECLIM:
+                    ra.append(a)
+                    dec.append(d)
+            return ra, dec
+        n2 = rng.randint(40, 110)
+        a2, d2 = partners(n2, l1[0])
+        if not a2:
+            a2, d2 = [l1[0]['ra'][0]], [l1[0]['dec'][0]]
+        l2 = [{'ra': a2, 'dec': d2}]
+        # twin of the second list: the points of extreme RA / Dec stay, the others become new partners (of either first list)
+        rel = [((a - ra0 + 180.0) % 360.0) - 180.0 for a in a2]
+        keep = {rel.index(min(rel)), rel.index(max(rel)), d2.index(min(d2)), d2.index(max(d2))}
+        ta, td = list(a2), list(d2)
+        for j in range(len(a2)):
+            if j in keep:
+                continue
+            for _ in range(4):
+                pa, pd = partners(1, l1[rng.randrange(2)])
+                if pa and min(rel) <= ((pa[0] - ra0 + 180.0) % 360.0) - 180.0 <= max(rel) and min(d2) <= pd[0] <= max(d2):
+                    ta[j], td[j] = pa[0], pd[0]
+                    break
+        l2.append({'ra': ta, 'dec': td})
+        a3, d3 = partners(rng.randint(10, 60), l1[rng.randrange(2)])
+        if a3:
+            l2.append({'ra': a3, 'dec': d3})
+        l2.append({'ra': list(l1[0]['ra']), 'dec': list(l1[0]['dec'])})            # the first list itself
+        # ---- the sequence
+        nsteps = rng.randint(5, 9)
+        if kind in ('growing', 'default_small'):
+            order = sorted(rng.choice(ms) for _ in range(nsteps))
+            if kind == 'default_small' and rng.random() < 0.4:
+                rng.shuffle(order)
+        elif kind == 'shrinking':
+            order = sorted((rng.choice(ms) for _ in range(nsteps)), reverse=True)
+        else:
+            order = [rng.choice(ms) for _ in range(nsteps)]
+        if len(set(order)) == 1:
+            order[-1] = ms[-1] if order[0] != ms[-1] else ms[0]
+            if kind != 'shrinking':
+                order.sort()
+            else:
+                order.sort(reverse=True)
+        same_objects = rng.random() < 0.4
+        steps = []
+        for t, m in enumerate(order):
+            cs = cs_list[t % len(cs_list)] if kind == 'two_chunksizes' else cs_list[0]
+            if rng.random() < 0.2:
+                L = m * rng.choice([0.25, 0.5, 1.0]) if rng.random() < 0.7 else ms[-1]
+                gcs = cs
+                if gcs is not None and gcs < 4.0 * L:                  # (spheregroup would replace such a chunk size by 4 L)
+                    L = gcs / 4.0 * rng.choice([1.0, 0.999, 0.5])
+                steps.append({'op': 'group', 'l1': 0 if rng.random() < 0.85 else 1, 'm': L, 'cs': gcs})
+            r = rng.random()
+            steps.append({'op': 'match', 'l1': 0 if rng.random() < 0.88 else 1,
+                          'l2': 0 if r < 0.6 else rng.randrange(len(l2)), 'm': m, 'cs': cs,
+                          'k': rng.choice([0, 0, 0, 0, 0, 1, 2]),
+                          'p1': rng.getrandbits(32) if rng.random() < 0.12 else None,
+                          'p2': rng.getrandbits(32) if rng.random() < 0.12 else None})
+        return {'m': m_max, 'cs': cs_list[0], 'k': 0, 'kind': kind, 'l1': l1, 'l2': l2, 'steps': steps,
+                'same_objects': same_objects, 'variants': []}
 
     def gen_clusters(self, rng, nr, i):
         m = log_uniform(rng, 1.0 / 3600.0, 30.0)
@@ -1017,6 +1189,12 @@ class C04(Check):
         return res
 
     def run(self, case, out):
+        for kk in ('made', 'refused'):           # calls the buffer-reuse monitor made since the last case (canaries included)
+            if self.brd_calls[kk]:
+                out.count('brd_own_calls_' + kk, self.brd_calls[kk])
+                self.brd_calls[kk] = 0
+        if 'steps' in case:
+            return self._run_sequence(case, out)
         mc = self._materialise(case)
         ra1, dec1, ra2, dec2 = mc['ra1'], mc['dec1'], mc['ra2'], mc['dec2']
         dense = 'dense' in case
@@ -1091,6 +1269,142 @@ class C04(Check):
         out.nontrivial = nsure >= 1 and nonpair_near >= 1 and cross >= 1
         out.info.update({'n1': n1, 'n2': n2, 'true_pairs': nsure, 'band_pairs': nband, 'cross_cell_true_pairs': cross,
                          'nonpairs_within_2m': nonpair_near})
+
+    def _homes(self, c, ra, dec):
+        """home cell of every point in the recorded grid (monitoring only; None where the grid has no cell for it)"""
+        res = []
+        for a, dd in zip(ra.tolist(), dec.tolist()):
+            try:
+                h = c.get(float(np.fmod(a + c.raOffset, 360.0)), float(dd))
+                res.append((int(h[0]), int(h[1])))
+            except Exception:
+                res.append(None)
+        return res
+
+    def _run_sequence(self, case, out):
+        """class same_lists: the calls of case['steps'] one after another in this process, each one judged by the oracle"""
+        L1 = [(np.array(x['ra'], dtype='d'), np.array(x['dec'], dtype='d')) for x in case['l1']]
+        L2 = [(np.array(x['ra'], dtype='d'), np.array(x['dec'], dtype='d')) for x in case['l2']]
+        kept = [a for pair in L1 + L2 for a in pair]
+        before = [a.tobytes() for a in kept]
+        same_objects = bool(case.get('same_objects'))
+        seps = {}
+
+        def sep(key, a, b):
+            if key not in seps:
+                with np.errstate(all='ignore'):
+                    S = R.checked_sep_matrix(a[0], a[1], b[0], b[1])
+                out.count('reference_selfchecks')
+                seps[key] = (S, S.astype('d'))
+            return seps[key]
+        out.count('same_lists_cases')
+        history = []                # (first list, effective chunk size, margin, op, second list) of the calls made so far
+        nontrivial = False
+        for si, st in enumerate(case['steps']):
+            i1 = int(st['l1'])
+            a1, d1 = L1[i1]
+            n1 = a1.size
+            m = float(st['m'])
+            cs = st['cs']
+            if st['op'] == 'group':
+                ecs = max(4.0 * m, 0.1) if cs is None else max(float(cs), 4.0 * m)
+                args = (a1, d1) if same_objects else (a1.copy(), d1.copy())
+                res = self.SG.spheregroup(args[0], args[1], m, chunksize=cs)
+                out.count('same_lists_spheregroup_calls')
+                S, Sf = sep(('g', i1), (a1, d1), (a1, d1))
+                with np.errstate(all='ignore'):
+                    sure, maybe, nband, _ = R.fof(a1, d1, m, S=S, exact=R.exact_links(a1, d1, m))
+                tag = 'step %d: spheregroup(list 1%s, L=%r, cs=%r)' % (si, 'ab'[i1], m, cs)
+                if sure != maybe:
+                    out.undecide(1)
+                else:
+                    ok = isinstance(res, tuple) and len(res) == 4 and np.asarray(res[0]).shape == (n1,)
+                    if out.expect(ok, 'sequence-spheregroup', '%s: result is not four arrays of length n' % tag):
+                        ing = np.asarray(res[0]).astype(int).tolist()
+                        relabel = {}
+                        got = [relabel.setdefault(g, len(relabel)) for g in ing]
+                        out.count('same_lists_spheregroup_judged')
+                        out.expect(got == list(sure), 'sequence-spheregroup',
+                                   '%s, called after %d other call(s) on the same values: the groups are not the friends-of-friends '
+                                   'components (%d groups, reference %d)' % (tag, si, len(relabel), max(sure) + 1),
+                                   earlier_calls=[list(h[:4]) for h in history])
+                history.append((i1, ecs, m, 'group', None))
+                continue
+            i2 = int(st['l2'])
+            a2, d2 = L2[i2]
+            n2 = a2.size
+            k = int(st['k'])
+            ecs = eff_cs(m, None if cs is None else float(cs))
+            p1 = perm_from_seed(st.get('p1'), n1)
+            p2 = perm_from_seed(st.get('p2'), n2)
+            permuted = st.get('p1') is not None or st.get('p2') is not None
+            if same_objects and not permuted:
+                args = (a1, d1, a2, d2)
+                out.count('same_lists_same_object_calls')
+            else:
+                args = (a1[p1], d1[p1], a2[p2], d2[p2])              # fresh arrays, equal values
+            self._chunk = None
+            res = self.SG.spherematch(args[0], args[1], args[2], args[3], m, chunksize=cs, maxmatch=k)
+            out.count('same_lists_calls')
+            S, Sf = sep(('m', i1, i2), (a1, d1), (a2, d2))
+            with np.errstate(all='ignore'):
+                sure, maybe = R.classify(S, m)
+            nband = int((maybe & ~sure).sum())
+            if nband:
+                out.undecide(nband)
+                out.count('band_pairs_undecided', nband)
+            nsure = int(sure.sum())
+            out.count('true_pairs', nsure)
+            # ---- what the earlier calls of this sequence have in common with this one (counters only)
+            prior = [h for h in history if h[0] == i1 and h[1] == ecs]
+            smaller = [h for h in prior if h[2] < m]
+            cross = newp = newcross = 0
+            c = self._chunk
+            if c is not None:
+                h1, h2 = self._homes(c, a1, d1), self._homes(c, a2, d2)
+                lim = min(h[2] for h in smaller) if smaller else None
+                for a, b in zip(*[x.tolist() for x in np.nonzero(sure)]):
+                    x = h2[b] is None or h2[b] != h1[a]
+                    cross += x
+                    if lim is not None and Sf[a, b] > lim:
+                        newp += 1
+                        newcross += x
+            out.count('cross_cell_true_pairs', cross)
+            if permuted:
+                out.count('same_lists_permuted_calls')
+            if i1 == 1 or i2 == 1:
+                out.count('same_lists_twin_calls')
+            if prior:
+                out.count('same_lists_calls_after_a_call_with_the_same_list1_and_chunksize')
+                if any(h[2] == m for h in prior):
+                    out.count('same_lists_repeated_length_calls')
+                if any(h[2] > m for h in prior):
+                    out.count('same_lists_shrinking_calls')
+                if prior[-1][4] is not None and prior[-1][4] != i2:
+                    out.count('same_lists_other_second_list_calls')
+            if smaller:
+                out.count('same_lists_growing_calls')
+                out.count('same_lists_growing_new_pairs', newp)
+                out.count('same_lists_growing_new_pairs_across_cells', newcross)
+                if cs is None:
+                    out.count('same_lists_growing_calls_default_chunksize')
+                if any(h[3] == 'group' for h in smaller):
+                    out.count('same_lists_growing_calls_after_spheregroup')
+            if any(h[0] == i1 and h[1] != ecs for h in history):
+                out.count('same_lists_calls_after_another_chunksize')
+            nonpair_near = int((~maybe & (Sf < 2.0 * m)).sum())
+            nontrivial = nontrivial or (nsure >= 1 and nonpair_near >= 1 and cross >= 1)
+            tag = 'step %d of %d on the same values (list 1%s x list 2 #%d, m=%r, cs=%r, k=%d%s; %d earlier call(s) with this list 1 and ' \
+                  'chunk size, lengths %s)' % (si, len(case['steps']), 'ab'[i1], i2, m, cs, k, ', permuted' if permuted else '',
+                                              len(prior), [h[2] for h in prior][:6])
+            pseudo = {'ra1': a1, 'dec1': d1, 'ra2': a2, 'dec2': d2}
+            with np.errstate(all='ignore'):
+                self._judge(out, res, p1, p2, n1, n2, S, Sf, sure, maybe, m, k, tag, pseudo)
+            history.append((i1, ecs, m, 'match', i2))
+        changed = [j for j, a in enumerate(kept) if a.tobytes() != before[j]]
+        out.expect(not changed, 'argument-unchanged', 'a call of the sequence modified the coordinate arrays it was given (%s)' % changed)
+        out.nontrivial = nontrivial
+        out.info.update({'steps': len(case['steps']), 'kind': case.get('kind'), 'same_objects': same_objects})
 
     def _run_flavours(self, case, out, S, Sf, m, k):
         """the same positions handed over in other dtypes / memory layouts; judged by the same oracle (single-precision
@@ -1261,6 +1575,11 @@ class C04(Check):
     def summarise(self, case):
         c = dict(case)
         if 'dense' in case:
+            return c
+        if 'steps' in case:
+            for k in ('l1', 'l2'):
+                c[k] = ['%d points, RA %.6g..%.6g, Dec %.6g..%.6g' % (len(x['ra']), min(x['ra']), max(x['ra']), min(x['dec']), max(x['dec']))
+                        for x in case[k]]
             return c
         for k in ('ra1', 'dec1', 'ra2', 'dec2'):
             c[k] = case[k][:6] + (['... %d values' % len(case[k])] if len(case[k]) > 6 else [])
